@@ -691,6 +691,104 @@ def evaluate(b, I, D=None, max_steps=150000):
     return Evaluator(I, D, max_steps).ev(b)
 
 
+class _OverBudget(Exception):
+    pass
+
+
+def _search(live, fs, order, dom, unconstrained_is_false, nodes, budget):
+    """Backtracking over `order`; a formula is evaluated at the level where
+    its last symbol gets a value."""
+    pos = dict((s, k) for k, s in enumerate(order))
+    ready = [[] for _ in range(len(order) + 1)]
+    for i, b in enumerate(live):
+        ready[max([pos[s] + 1 for s in fs[i]] or [0])].append(b)
+    I = {}
+
+    def holds(k):
+        for b in ready[k]:
+            nodes[0] += 1
+            if budget is not None and nodes[0] > budget:
+                raise _OverBudget()
+            try:
+                if not evaluate(b, I):
+                    return False
+            except Unconstrained:
+                if not unconstrained_is_false:
+                    raise
+                return False
+        return True
+
+    def go(k):
+        if not holds(k):
+            return False
+        if k == len(order):
+            return True
+        s = order[k]
+        for v in dom[s]:
+            I[s[0]] = v
+            if go(k + 1):
+                return True
+        I.pop(s[0], None)
+        return False
+
+    return dict(I) if go(0) else None
+
+
+def find_model(live, syms, doms, unconstrained_is_false=False,
+               stats=None, first_budget=200000):
+    """An interpretation of `syms` (values from `doms`, aligned with `syms`)
+    under which every blueprint of `live` evaluates to true, or None when
+    there is none.  A complete backtracking search: the same verdict as
+    enumerating itertools.product(*doms), but a formula is evaluated as soon
+    as the symbols it mentions have values and the branch is left when it is
+    false, so a contradiction among a few symbols no longer costs the
+    product of all the other domains.
+
+    1. decide with the symbols ordered so that formulas complete early
+       (cheapest unfinished formula first);
+    2. when there is a model, look for the first one in the order of
+       `syms` (the one plain enumeration returns) within `first_budget`
+       formula evaluations; past the budget the model of step 1 is
+       returned.  Both are models; step 2 only keeps the choice stable."""
+    live = list(live)
+    fs = [set(B.free_syms(b)) for b in live]
+    dom = dict(zip(syms, doms))
+    size = dict((s, max(1, len(d))) for s, d in dom.items())
+    placed, order = set(), []
+    todo = list(range(len(live)))
+    while todo:
+        def cost(i):
+            c = 1
+            for s in fs[i] - placed:
+                c *= size[s]
+            return (c, i)
+        i = min(todo, key=cost)
+        for s in sorted(fs[i] - placed):
+            order.append(s)
+            placed.add(s)
+        todo = [j for j in todo if not fs[j] <= placed]
+    order += [s for s in syms if s not in placed]
+    nodes = [0]
+    try:
+        I = _search(live, fs, order, dom, unconstrained_is_false, nodes,
+                    None)
+        if I is not None and order != list(syms):
+            n1 = nodes[0]
+            nodes[0] = 0
+            try:
+                I = _search(live, fs, list(syms), dom,
+                            unconstrained_is_false, nodes, first_budget)
+            except _OverBudget:
+                if stats is not None:
+                    stats['first_model_over_budget'] = stats.get(
+                        'first_model_over_budget', 0) + 1
+            nodes[0] += n1
+    finally:
+        if stats is not None:
+            stats['evaluations'] = stats.get('evaluations', 0) + nodes[0]
+    return I
+
+
 def value_to_bp(v, t):
     """Constant blueprint denoting value v of type t (for model building)."""
     k = t[0]
